@@ -660,6 +660,33 @@ impl Fr {
     }
 }
 
+/// Verification hook H6: raw-limb access and unchanged wrappers of the private
+/// Montgomery kernels, so that an out-of-tree checker can replay solver
+/// counterexamples against the real functions. Add-only, compiled only with
+/// the `verif-hooks` feature.
+#[cfg(feature = "verif-hooks")]
+impl Fr {
+    /// Builds an element from raw (Montgomery-form, unchecked) limbs.
+    pub fn verif_from_limbs(limbs: [u64; 4]) -> Fr {
+        Fr(limbs)
+    }
+
+    /// Returns the raw (Montgomery-form) limbs.
+    pub fn verif_limbs(&self) -> [u64; 4] {
+        self.0
+    }
+
+    /// Calls the private `montgomery_reduce` unchanged.
+    pub fn verif_montgomery_reduce(r: [u64; 8]) -> Fr {
+        Fr::montgomery_reduce(r[0], r[1], r[2], r[3], r[4], r[5], r[6], r[7])
+    }
+
+    /// Calls the private `from_u512` unchanged.
+    pub fn verif_from_u512(limbs: [u64; 8]) -> Fr {
+        Fr::from_u512(limbs)
+    }
+}
+
 impl From<Fr> for [u8; 32] {
     fn from(value: Fr) -> [u8; 32] {
         value.to_bytes()
